@@ -118,6 +118,10 @@ func solveOne(o *Obligation, dir string, quickSec, raceSec int) {
 	if o.Status != "" {
 		return
 	}
+	if !o.Cover && o.Goal == TFalse && o.Guard == TTrue {
+		o.Status, o.Solver, o.Output = "failed", "syntactic", "the obligation is false by construction"
+		return
+	}
 	txt := o.smtText()
 	o.SMTSize = len(txt)
 	file := filepath.Join(dir, sanitize(o.Name)+".smt2")
